@@ -65,6 +65,56 @@ async def _chain(depth: int, trigger: str) -> list[str]:
     return bad
 
 
+async def _leaf_error(depth: int) -> list[str]:
+    """C02 (finding F52): one group per task, `depth` levels, the innermost task raises the only error of the program;
+    the leaves of what the outermost block raises must be exactly that error."""
+    from anyio import create_task_group, sleep_forever
+
+    class Boom(Exception):
+        pass
+
+    async def level(n: int) -> None:
+        if n == 0:
+            await asyncio.sleep(0.05)
+            raise Boom("the only error raised by any task")
+        async with create_task_group() as tg:
+            tg.start_soon(level, n - 1)
+            tg.start_soon(sleep_forever)
+
+    found, stack = [], []
+    try:
+        await level(depth)
+    except BaseException as exc:  # noqa: BLE001
+        stack = [exc]
+    while stack:
+        item = stack.pop()
+        if isinstance(item, BaseExceptionGroup):
+            stack.extend(item.exceptions)
+        else:
+            found.append(item)
+    names = sorted(type(e).__name__ for e in found)
+    if names == ["Boom"]:
+        return []
+    tag = " [kf:deep_error_replaced_by_recursion_error]" if names == ["RecursionError"] else ""
+    return [f"{depth} nested task groups (one per task), the innermost task raised Boom and nothing else failed: the "
+            f"outermost block raised leaves {names} - the error was dropped{tag}"]
+
+
+def run_c02(depth: int = 3500) -> list[tuple[str, str]]:
+    import json
+    import os
+    import subprocess
+    env = dict(os.environ, PYTHONPATH=f"{REPO / 'src'}:{os.path.dirname(os.path.abspath(__file__))}", VERIF_REPO=str(REPO))
+    try:
+        p = subprocess.run([sys.executable, os.path.abspath(__file__), "--one", "leaf_error", str(depth)], env=env,
+                           stdout=subprocess.PIPE, stderr=subprocess.DEVNULL, text=True, timeout=90)
+        last = [l for l in p.stdout.splitlines() if l.startswith("RESULT ")]
+        msgs = json.loads(last[-1][7:]) if last else [f"scenario process ended with status {p.returncode} and no result"]
+    except subprocess.TimeoutExpired:
+        msgs = ["the task tree never terminated (90 s limit)"]
+    return [(f"leaf_error/depth={depth}", m) for m in msgs]
+
+
 def run_all(depth: int | None = None) -> list[tuple[str, str]]:
     """Each trigger runs in its own interpreter with a hard time limit: on a tree with the defect the program may
     hang or drown in loop error reports."""
@@ -91,6 +141,8 @@ def _one(trig: str, depth: int) -> None:
 
     async def main():
         asyncio.get_running_loop().set_exception_handler(lambda loop, ctx: None)
+        if trig == "leaf_error":
+            return await asyncio.wait_for(_leaf_error(depth), 70)
         return await asyncio.wait_for(_chain(depth, trig), 20)
     try:
         msgs = asyncio.run(main())
